@@ -23,6 +23,7 @@ def main():
     be = "py" if os.environ.get("YARL_NO_EXTENSIONS") else "c"
     behaviours = json.load(open(src))
     out, part = [], 0
+    lastinfo = {n: {"maxsize": 0, "currsize": 0, "hits": 0, "misses": 0} for n in NAMES}
 
     def flush():
         nonlocal out, part
@@ -33,8 +34,14 @@ def main():
     for bi, beh in enumerate(behaviours):
         if bi % 60 == 0:
             flush()            # a trace file starts at a behaviour boundary (its first event re-initialises the model)
-        yarl.cache_configure()      # the model's initial state: default sizes, empty, counters zero
-        out.append({"kind": "begin", "id": f"{be}.cache.{bi}.begin", "info": info(yarl)})
+        ev0 = {"kind": "begin", "id": f"{be}.cache.{bi}.begin"}
+        try:
+            yarl.cache_configure()      # the model's initial state: default sizes, empty, counters zero
+            ev0["info"] = lastinfo = info(yarl)
+        except Exception as e:  # noqa: BLE001
+            ev0["crash"] = type(e).__name__ + ":" + str(e)[:200]
+            ev0["info"] = lastinfo
+        out.append(ev0)
         for si, c in enumerate(beh):
             ev = {"kind": c["call"], "id": f"{be}.cache.{bi}.{si}"}
             try:
@@ -61,9 +68,16 @@ def main():
                     ev["sizes"] = {n: c["sizes"][n] for n in NAMES}
             except Exception as e:  # noqa: BLE001
                 ev["crash"] = type(e).__name__ + ":" + str(e)[:200]
-            ev["info"] = info(yarl)
+            try:
+                ev["info"] = lastinfo = info(yarl)
+            except Exception as e:  # noqa: BLE001 - cache_info() itself failing is an observation, not a harness error
+                ev.setdefault("crash", "cache_info:" + type(e).__name__ + ":" + str(e)[:200])
+                ev["info"] = lastinfo
             out.append(ev)
-    yarl.cache_configure()
+    try:
+        yarl.cache_configure()
+    except Exception:  # noqa: BLE001 - already recorded above
+        pass
     flush()
     print(json.dumps({"files": part}))
 
